@@ -1343,11 +1343,15 @@ func (h *Hashgraph) ProcessSigPool() error {
 
 		valid, err := block.Verify(bs)
 		if err != nil {
+			// A signature that cannot even be decoded will never become
+			// valid: drop it instead of failing on it at every call (which
+			// also kept the other pending signatures from being processed).
 			h.logger.WithFields(logrus.Fields{
 				"index": bs.Index,
 				"msg":   err,
 			}).Error("Verifying Block signature")
-			return err
+			h.PendingSignatures.Remove(bs.Key())
+			continue
 		}
 		if !valid {
 			bytesBlock, _ := block.Marshal()
